@@ -615,9 +615,203 @@ func runC17Wrong(t *testing.T, x c17Wrong, verbose bool) (c vfCase) {
 	return c
 }
 
+// ---- framing against peers with arbitrary extension lists ----
+//
+// Two pion endpoints always list I-DATA and I-FORWARD-TSN together. A foreign peer need not:
+// the puppet advertises a generated subset of {RE-CONFIG, FORWARD-TSN, I-DATA, I-FORWARD-TSN,
+// an unknown type}. The victim writes on a partially reliable stream, the puppet loses the
+// first message and acknowledges the rest, and every chunk the victim emits is judged:
+// with interleaving (victim enabled it and the peer lists I-DATA) only I-DATA and, if the
+// peer lists it, I-FORWARD-TSN; otherwise only DATA and, if listed, FORWARD-TSN.
+
+type c17Ext struct {
+	VictimIL bool   `json:"victimil"`
+	AsClient bool   `json:"asclient"`
+	Ext      []int  `json:"ext"`
+	NoExt    bool   `json:"noext,omitempty"`
+	Unord    bool   `json:"unord"`
+	RelT     int    `json:"relt"`
+	RelV     int    `json:"relv"`
+	NMsg     int    `json:"nmsg"`
+	Size     int    `json:"size"`
+	Lose     int    `json:"lose"`
+	TSN      uint32 `json:"tsn"`
+}
+
+func genC17Ext(rt *rapid.T) c17Ext {
+	x := c17Ext{VictimIL: rapid.Bool().Draw(rt, "victimil"), AsClient: rapid.Bool().Draw(rt, "asclient"), Unord: rapid.Bool().Draw(rt, "unord"),
+		RelT: rapid.SampledFrom([]int{1, 1, 2, 0}).Draw(rt, "relt"), RelV: rapid.SampledFrom([]int{0, 0, 1, 2}).Draw(rt, "relv"),
+		NMsg: rapid.IntRange(2, 5).Draw(rt, "nmsg"), Size: rapid.SampledFrom([]int{1, 100, 1100, 2500}).Draw(rt, "size"), Lose: rapid.SampledFrom([]int{1, 2, 4, 100}).Draw(rt, "lose"),
+		TSN: genTSN(rt, "tsn", 8448)}
+	for _, e := range []int{wtRECONFIG, wtFWD, wtIDATA, wtIFWD, 0x0f} {
+		if rapid.Bool().Draw(rt, "ext") {
+			x.Ext = append(x.Ext, e)
+		}
+	}
+	x.NoExt = rapid.IntRange(0, 9).Draw(rt, "noext") == 0
+	return x
+}
+
+func runC17Ext(t *testing.T, x c17Ext, verbose bool) (c vfCase) {
+	var e1 vfE1
+	e1.Cfg[0] = vfSideCfg{IL: x.VictimIL, TSN: x.TSN, RTOMax: 2000}
+	has := func(e int) bool {
+		if x.NoExt {
+			return false
+		}
+		for _, v := range x.Ext {
+			if v == e {
+				return true
+			}
+		}
+		return false
+	}
+	il := x.VictimIL && has(wtIDATA)
+	var sawFwd bool
+	pm := vfBubble(t, func() {
+		s := newVfSim(t, &e1, verbose)
+		ext := []byte{}
+		for _, e := range x.Ext {
+			ext = append(ext, byte(e))
+		}
+		p := newVfPuppet(s, 1, vfPuppetCfg{IL: il, TSN: 9000, Ext: ext, NoExt: x.NoExt})
+		defer func() {
+			if c.Verdict != "" || verbose {
+				c.Detail = s.history(100)
+			}
+			s.closeAll()
+		}()
+		ok := false
+		if x.AsClient {
+			ok = p.connectAsClient(30 * time.Second)
+		} else {
+			ok = p.connectAsServer(30 * time.Second)
+		}
+		if !ok {
+			c.fail("puppet-handshake", "handshake with a peer listing extensions %v failed", x.Ext)
+			return
+		}
+		s.afterEstablished()
+		p.rcvCum = x.TSN - 1
+		first := map[uint32]int{}
+		firstMsgTSNs := map[uint32]bool{}
+		p.onPacket = func(pk *wPacket) {
+			got := false
+			for i := range pk.Chunks {
+				ch := &pk.Chunks[i]
+				if ch.Type != wtDATA && ch.Type != wtIDATA {
+					continue
+				}
+				// the first message is the one with SSN / MID 0 on the stream
+				if (ch.Type == wtDATA && ch.SSN == 0 && !ch.U) || (ch.Type == wtIDATA && ch.MID == 0) || (ch.Type == wtDATA && ch.U && len(firstMsgTSNs) == 0) || firstMsgTSNs[ch.TSN] {
+					firstMsgTSNs[ch.TSN] = true
+					first[ch.TSN]++
+					if first[ch.TSN] <= x.Lose {
+						continue
+					}
+				}
+				p.modelRecv(ch.TSN)
+				got = true
+			}
+			if fw := pk.first(wtFWD); fw != nil {
+				if d := fw.NewCum - p.rcvCum; d > 0 && d < 1<<31 {
+					p.rcvCum = fw.NewCum
+				}
+				got = true
+			}
+			if fw := pk.first(wtIFWD); fw != nil {
+				if d := fw.NewCum - p.rcvCum; d > 0 && d < 1<<31 {
+					p.rcvCum = fw.NewCum
+				}
+				got = true
+			}
+			if got {
+				for p.rcvSet[p.rcvCum+1] {
+					delete(p.rcvSet, p.rcvCum+1)
+					p.rcvCum++
+				}
+				p.sendSack()
+			}
+		}
+		h, err := s.stream(0, 1, PayloadTypeWebRTCBinary)
+		if err != nil {
+			c.fail("open", "open: %v", err)
+			return
+		}
+		h.s.SetReliabilityParams(x.Unord, byte(x.RelT), uint32(x.RelV))
+		for i := 0; i < x.NMsg; i++ {
+			s.doWrite(0, 1, x.Size, 53)
+			s.o.settle(20 * time.Millisecond)
+		}
+		s.o.settle(12 * time.Second)
+		for _, r := range p.rx {
+			if r.P == nil {
+				continue
+			}
+			for i := range r.P.Chunks {
+				ch := &r.P.Chunks[i]
+				switch ch.Type {
+				case wtDATA:
+					if il {
+						c.fail("plain-data-with-interleaving", "t=%v: DATA emitted although interleaving is negotiated (victim enabled it, peer lists I-DATA; peer extensions %v)", r.T, x.Ext)
+					}
+				case wtIDATA:
+					if !il {
+						c.fail("idata-without-interleaving", "t=%v: I-DATA emitted although interleaving is not negotiated (victim option %v, peer extensions %v)", r.T, x.VictimIL, x.Ext)
+					}
+				case wtFWD:
+					sawFwd = true
+					if il {
+						c.fail("forward-tsn-with-interleaving", "t=%v: plain FORWARD-TSN emitted on an association that uses I-DATA (peer extensions %v)", r.T, x.Ext)
+					} else if !has(wtFWD) {
+						c.fail("forward-tsn-not-supported-by-peer", "t=%v: FORWARD-TSN emitted although the peer does not list it (peer extensions %v)", r.T, x.Ext)
+					}
+				case wtIFWD:
+					sawFwd = true
+					if !il {
+						c.fail("i-forward-tsn-without-interleaving", "t=%v: I-FORWARD-TSN emitted on an association that uses DATA (peer extensions %v)", r.T, x.Ext)
+					} else if !has(wtIFWD) {
+						c.fail("i-forward-tsn-not-supported-by-peer", "t=%v: I-FORWARD-TSN emitted although the peer does not list it (peer extensions %v)", r.T, x.Ext)
+					}
+				case wtABORT:
+					c.fail("victim-aborted", "t=%v: the endpoint aborted an honest peer: %+v", r.T, ch.Causes)
+				}
+				if c.Verdict != "" {
+					return
+				}
+			}
+		}
+		if md, ok := s.as[0].Metadata(); ok {
+			if md.MessageInterleavingEnabled != il {
+				c.fail("metadata-interleaving", "Metadata().MessageInterleavingEnabled=%v, negotiated %v", md.MessageInterleavingEnabled, il)
+			}
+			if il && md.PartialReliabilityMode == PartialReliabilityModeForwardTSN || !il && md.PartialReliabilityMode == PartialReliabilityModeIForwardTSN {
+				c.fail("metadata-forward-tsn-variant", "interleaving=%v but partial reliability mode %v", il, md.PartialReliabilityMode)
+			}
+		}
+	})
+	if pm != "" && c.Verdict == "" {
+		c.fail("bubble-panic", "bubble: %s", pm)
+	}
+	if il {
+		c.class("interleaving")
+	} else {
+		c.class("plain")
+	}
+	if sawFwd {
+		c.class("forward-tsn-emitted")
+	}
+	if il != (x.VictimIL && has(wtIFWD)) || (!il && !has(wtFWD)) {
+		c.class("unusual-extension-combination")
+	}
+	c.Nontrivial = x.RelT != 0
+	return c
+}
+
 func TestVF_C17(t *testing.T) {
 	vfExplore(t, "C17", "queue", vfN(24000, 600000), genC17, runC17)
 	vfExplore(t, "C17", "wire", vfN(1600, 40000), genC17Live, func(x c17Live) vfCase { return runC17Live(t, x, vfEnv.Replay != "") })
 	vfExplore(t, "C17", "wrongkind", vfN(1600, 40000), genC17Wrong, func(x c17Wrong) vfCase { return runC17Wrong(t, x, vfEnv.Replay != "") })
+	vfExplore(t, "C17", "ext-matrix", vfN(800, 20000), genC17Ext, func(x c17Ext) vfCase { return runC17Ext(t, x, vfEnv.Replay != "") })
 	_ = fmt.Sprint
 }
